@@ -603,6 +603,35 @@ func (p *Pos) ParseMove(s string) (Move, bool) {
 	return Move{}, false
 }
 
+// PseudoIllegalMoves returns the moves that obey the movement rules of the
+// pieces but leave the own king in check (moves of pinned pieces, king
+// steps onto attacked squares, en passant captures that open a line).
+func (p *Pos) PseudoIllegalMoves() []Move {
+	var out []Move
+	us := p.side()
+	for _, m := range p.pseudo() {
+		q := *p
+		q.hist = nil
+		q.apply(m)
+		k := q.KingSq(us)
+		if k >= 0 && q.Attacked(k, 1-us) {
+			out = append(out, m)
+		}
+	}
+	return out
+}
+
+// ParsePseudo finds the pseudo-legal move with the given coordinates.
+func (p *Pos) ParsePseudo(s string) (Move, bool) {
+	s = strings.ToLower(strings.TrimSpace(s))
+	for _, m := range p.pseudo() {
+		if m.String() == s {
+			return m, true
+		}
+	}
+	return Move{}, false
+}
+
 // IsLegal reports whether the UCI move string is a legal move.
 func (p *Pos) IsLegal(s string) bool {
 	_, ok := p.ParseMove(s)
